@@ -33,6 +33,15 @@ type I6 interface {
 	A(p *int) *int
 }
 
+// IW has methods whose receiver plus parameters fill every integer argument register (9 words), a
+// mixed int / float one, and one that spills to the stack.
+type IW interface {
+	Wide(a1, a2, a3, a4, a5, a6, a7, a8 int) int
+	Str4(a, b, c, d string) string
+	Mix(a int, x float64, b int, y float64, s string, z float64) float64
+	Spill(a1, a2, a3, a4, a5, a6, a7, a8, a9, a10, a11 int) int
+}
+
 // Closer is embedded into Emb.
 type Closer interface {
 	Close() error
@@ -59,7 +68,15 @@ func (i *Impl) C()                          {}
 func (i *Impl) B(x fn.S3) fn.S3             { return x }
 func (i *Impl) A(p *int) *int               { return p }
 func (i *Impl) Close() error                { return nil }
-func (i *Impl) Name() string                { return "impl" }
+func (i *Impl) Wide(a1, a2, a3, a4, a5, a6, a7, a8 int) int {
+	return a1 + a8
+}
+func (i *Impl) Str4(a, b, c, d string) string { return a + d }
+func (i *Impl) Mix(a int, x float64, b int, y float64, s string, z float64) float64 {
+	return x + z
+}
+func (i *Impl) Spill(a1, a2, a3, a4, a5, a6, a7, a8, a9, a10, a11 int) int { return a1 + a11 }
+func (i *Impl) Name() string                                               { return "impl" }
 
 // Variables: three per interface type, some pre-loaded.
 var (
@@ -67,6 +84,7 @@ var (
 	V3a, V3b, V3c I3
 	V6a, V6b, V6c I6
 	VEa, VEb, VEc Emb
+	VWa, VWb, VWc IW
 )
 
 // ResetVars puts the variables into their initial state.
@@ -75,6 +93,7 @@ func ResetVars() {
 	V3a, V3b, V3c = nil, nil, &Impl{Tag: 3}
 	V6a, V6b, V6c = &Impl{Tag: 6}, nil, nil
 	VEa, VEb, VEc = nil, &Impl{Tag: 7}, nil
+	VWa, VWb, VWc = nil, nil, &Impl{Tag: 8}
 }
 
 func init() { ResetVars() }
@@ -214,6 +233,34 @@ var Ifaces = []*Iface{
 			return func(c *mocker.IContext) string { return as[string](r.enter(c)[0]) }
 		}, Call: func(v interface{}, a []interface{}) []interface{} {
 			return []interface{}{(*v.(*Emb)).Name()}
+		}},
+	}},
+	{Name: "IW", Typ: reflect.TypeOf((*IW)(nil)).Elem(), Vars: []interface{}{&VWa, &VWb, &VWc}, Methods: []*Method{
+		{Name: "Wide", Mk: func(r *Rec) interface{} {
+			return func(c *mocker.IContext, a1, a2, a3, a4, a5, a6, a7, a8 int) int {
+				return as[int](r.enter(c, a1, a2, a3, a4, a5, a6, a7, a8)[0])
+			}
+		}, Call: func(v interface{}, a []interface{}) []interface{} {
+			return []interface{}{(*v.(*IW)).Wide(as[int](a[0]), as[int](a[1]), as[int](a[2]), as[int](a[3]), as[int](a[4]), as[int](a[5]), as[int](a[6]), as[int](a[7]))}
+		}},
+		{Name: "Str4", Mk: func(r *Rec) interface{} {
+			return func(c *mocker.IContext, a, b, cc, d string) string { return as[string](r.enter(c, a, b, cc, d)[0]) }
+		}, Call: func(v interface{}, a []interface{}) []interface{} {
+			return []interface{}{(*v.(*IW)).Str4(as[string](a[0]), as[string](a[1]), as[string](a[2]), as[string](a[3]))}
+		}},
+		{Name: "Mix", Mk: func(r *Rec) interface{} {
+			return func(c *mocker.IContext, a int, x float64, b int, y float64, s string, z float64) float64 {
+				return as[float64](r.enter(c, a, x, b, y, s, z)[0])
+			}
+		}, Call: func(v interface{}, a []interface{}) []interface{} {
+			return []interface{}{(*v.(*IW)).Mix(as[int](a[0]), as[float64](a[1]), as[int](a[2]), as[float64](a[3]), as[string](a[4]), as[float64](a[5]))}
+		}},
+		{Name: "Spill", Mk: func(r *Rec) interface{} {
+			return func(c *mocker.IContext, a1, a2, a3, a4, a5, a6, a7, a8, a9, a10, a11 int) int {
+				return as[int](r.enter(c, a1, a2, a3, a4, a5, a6, a7, a8, a9, a10, a11)[0])
+			}
+		}, Call: func(v interface{}, a []interface{}) []interface{} {
+			return []interface{}{(*v.(*IW)).Spill(as[int](a[0]), as[int](a[1]), as[int](a[2]), as[int](a[3]), as[int](a[4]), as[int](a[5]), as[int](a[6]), as[int](a[7]), as[int](a[8]), as[int](a[9]), as[int](a[10]))}
 		}},
 	}},
 }
